@@ -25,7 +25,7 @@ Theorem unit_weights_wmcp_prox : forall alpha gamma weights pos x s j, get_idx w
   @WeightedMCPenalty_prox_1d R _ alpha gamma weights pos x s j = @MCPenalty_prox_1d R _ alpha gamma pos x s j.
 Proof. exact WeightedMCP_unit_prox. Qed.
 Print Assumptions unit_weights_wmcp_prox.
-Theorem singleton_group_bst_is_st : forall x u, 0 <= u -> (0 < u \/ x <> 0) ->
+Theorem singleton_group_bst_is_st : forall x u, 0 <= u ->
   @BST R _ [x] u false = bind (@ST R _ x u false) (fun p => Ok [p]).
 Proof. exact BST_singleton. Qed.
 Print Assumptions singleton_group_bst_is_st.
